@@ -3,14 +3,23 @@
 (* and its observation is written to  <OBS_DIR>/<i>_<av>.json ; the driver      *)
 (* (engines/c01.py) hands these observations to Src_IR.tla, where TLC compares  *)
 (* them with the execution of the IR that ppci produced for the same program,  *)
-(* and to the gcc reference guard.                                             *)
+(* and to the gcc reference guard.  `acts` records which actions of Src.tla     *)
+(* the behaviour took (TLC's own -coverage instrumentation cannot be used: its  *)
+(* cost model unfolds the mutually recursive evaluator and exhausts the heap).  *)
 EXTENDS Src
-VARIABLE done
+VARIABLES done, acts
 ObsPath == IOEnv.OBS_DIR \o "/" \o ToString(i) \o "_" \o ToString(av) \o ".json"
-RInit == Init /\ done = FALSE
+RInit == Init /\ done = FALSE /\ acts = {}
+T(name, A) == A /\ UNCHANGED <<chunk, i, av, done>> /\ acts' = acts \cup {name}
 Emit == /\ Finished /\ ~done
         /\ done' = TRUE
-        /\ JsonSerialize(ObsPath, [i |-> i, av |-> av, steps |-> steps, obs |-> Obs])
-        /\ UNCHANGED vars
-RNext == (Next /\ UNCHANGED done) \/ Emit
+        /\ JsonSerialize(ObsPath, [i |-> i, av |-> av, steps |-> steps, acts |-> acts, obs |-> Obs])
+        /\ UNCHANGED vars /\ UNCHANGED acts
+RNext == \/ ((PickChunk \/ PickCase) /\ UNCHANGED <<done, acts>>)
+         \/ T("Decl", Decl) \/ T("DeclArr", DeclArr) \/ T("ExprStmt", ExprStmt) \/ T("Assign", Assign)
+         \/ T("IncDec", IncDec) \/ T("If", If) \/ T("SeqStmt", SeqStmt) \/ T("While", While) \/ T("DoWhile", DoWhile)
+         \/ T("LoopTest", LoopTest) \/ T("For", For) \/ T("ForTest", ForTest) \/ T("Switch", Switch)
+         \/ T("SwitchStep", SwitchStep) \/ T("Break", Break) \/ T("Continue", Continue) \/ T("Return", Return)
+         \/ T("BlockEnd", BlockEnd) \/ T("Unknown", Unknown) \/ T("OutOfFuel", OutOfFuel)
+         \/ Emit
 =============================================================================
